@@ -69,7 +69,7 @@ def describe(tier):
             f"limit {DEPTHS_ALL} with L-1. Decoder-level (DL) families call the named decoder/helper functions directly (deeper L). Structured "
             "generators: PE header fields x EVERY truncation length x 3 embedding offsets; chr/chrw/chrb of every number 0..99999 with 0-2 leading "
             "zeros; xor keys 0..999 in 4 spellings on base64/hex/byte-array forms; 501/502-element byte arrays with each malformed element in "
-            "first/middle/last position; full shipped registry (5316 keywords) on all <=2-token strings of the `mix` family and one witness per "
+            "first/middle/last position; boundary ladder (2..1025 repetitions / 16 kB, thorough ..70000 / 64 kB: powers of two +-1 and round numbers) of repetitions of every family token and of leading zeros in every numeric spelling; full shipped registry (5316 keywords) on all <=2-token strings of the `mix` family and one witness per "
             "family. Oracle: nothing raises (any exception type), the 5 s no-progress watchdog does not fire (30 s for PE/byte-array cases), the result is a "
             "Node carrying the input. states = distinct byte strings evaluated, transitions = token extensions (evaluations), traces = scans/calls "
             "completed on the real code. Non-trivial = an input on which at least one decoder returned a hit (SL: tree has a child; DL: non-empty result)."
@@ -106,6 +106,7 @@ def plan(tier, seed):
     for i in range(len(_pe_field_grid(tier))):
         units.append(("pe", tier, i))
     units.append(("bytes", tier))
+    units += [("ladder", tier, name) for name in families.STREAM_FAMILIES["quick"] if not name.startswith("bytes")] + [("ladder-num", tier)]
     units.append(("full", tier))
     units.append(("views",))
     return units
@@ -233,6 +234,10 @@ def run_unit(unit, rec):
         run_pe(rec, _pe_field_grid(tier)[i], tier)
     elif kind == "bytes":
         run_bytes(rec, unit[1])
+    elif kind == "ladder":
+        run_ladder(rec, unit[1], unit[2])
+    elif kind == "ladder-num":
+        run_ladder_num(rec, unit[1])
     elif kind == "full":
         run_full(rec, unit[1])
     elif kind == "views":
@@ -330,6 +335,35 @@ def run_bytes(rec, tier):
     rec.sample({"family": "byte-array", "n": n, "elem": elem, "suffix": suffix})
 
 
+def run_ladder(rec, tier, name):
+    """Every token of the family repeated n times for every n of the boundary ladder (one unbounded quantity at a time), alone and
+    between the family's other tokens' first representative."""
+    fam = families.get(name)
+    hi, max_bytes = (1025, 16384) if tier == "quick" else (70000, 65536)  # several decoders are quadratic in such inputs (out of scope)
+    last = b""
+    for tok in fam.tokens:
+        for n in core.ladder(2, hi):
+            if len(tok) * n > max_bytes:
+                break
+            for data in (tok * n, fam.tokens[0] + b" " + tok * n + b" " + fam.tokens[-1]):
+                rec.mark("states", (name, data[:40], n), True)
+                scan_case(rec, md(), data, 10, {"kind": "ladder", "family": name, "token": tok, "n": n, "wrapped": data[:1] != tok[:1] or len(data) != len(tok) * n},
+                          100000 + n, limit=60)
+                last = data
+    rec.sample({"family": name, "level": "ladder", "token": tok, "lengths": core.ladder(2, hi)[-5:], "last_len": len(last)})
+
+
+def run_ladder_num(rec, tier):
+    """Unbounded numeric spellings: leading zeros of chr() arguments, of array elements, of xor keys, of XML references, of ports."""
+    for n in core.ladder(0, 10000):
+        z = b"0" * n
+        for data in (b"x=chr(" + z + b"65)&y", b"ChrW(" + z + b")", b"&#" + z + b"65;" * 1 + b"&#65;&#66;&#67;&#68;&#69;", b"FromBase64String('R1ZASA==') -bxor " + z + b"35",
+                     b"http://a.com:" + z + b"80/x", b"1." + z + b"2.3.4 and " + z + b"1.2.3.4", b"$a = " + b",".join([z + b"65"] * 3 + [b"66"] * 500)):
+            rec.mark("states", (data[:12], n), True)
+            scan_case(rec, md(), data, 10, {"kind": "ladder-num", "n": n, "head": data[:12]}, 200000 + n, limit=60)
+    rec.sample({"family": "numeric-ladder", "leading_zero_counts": core.ladder(0, 10000)[-6:]})
+
+
 def xorguess_data(klen, kb):
     plain = (b"This program cannot be run in DOS mode. " * 16)[:600]
     key = bytes((kb + 7 * i) % 256 for i in range(klen))
@@ -392,3 +426,7 @@ def replay(w, rec):
         scan_case(rec, md(), data, 10, w, 1000, limit=30)
     elif kind == "xorguess":
         scan_case(rec, md(), xorguess_data(w["klen"], w["kb"]), 10, w, 3000, limit=30)
+    elif kind == "ladder":
+        run_ladder(rec, "quick" if w["n"] <= 1025 else "thorough", w["family"])
+    elif kind == "ladder-num":
+        run_ladder_num(rec, "quick")
